@@ -28,6 +28,12 @@ pub struct PipeState {
     pub read_dropped: bool,
     pub write_dropped: bool,
     pub reads: usize,
+    /// cooperative transport: after every `k` reads that returned data the next read wakes its caller and returns
+    /// `Pending` although data is available (what a tokio resource does when the task's budget is used up)
+    pub yield_every: Option<usize>,
+    pub ready_reads: usize,
+    /// at most this many bytes per read
+    pub chunk: Option<usize>,
 }
 
 #[derive(Clone)]
@@ -72,7 +78,16 @@ impl AsyncRead for R {
             s.read_waker = Some(cx.waker().clone());
             return Poll::Pending;
         }
-        let n = buf.len().min(s.inbound.len());
+        if let Some(k) = s.yield_every {
+            if s.ready_reads >= k {
+                s.ready_reads = 0;
+                drop(s);
+                cx.waker().wake_by_ref();
+                return Poll::Pending;
+            }
+            s.ready_reads += 1;
+        }
+        let n = buf.len().min(s.inbound.len()).min(s.chunk.unwrap_or(usize::MAX));
         for b in buf.iter_mut().take(n) {
             *b = s.inbound.pop_front().unwrap();
         }
@@ -155,6 +170,12 @@ impl Pipe {
                 (None, Some(_)) => None,
             }
         });
+    }
+    pub fn set_yieldy(&self, k: Option<usize>, chunk: Option<usize>) {
+        let mut s = self.0.lock().unwrap();
+        s.yield_every = k;
+        s.chunk = chunk;
+        s.ready_reads = 0;
     }
     pub fn set_credit(&self, c: Option<usize>) {
         self.fire_write(|s| s.credit = c);
